@@ -7,7 +7,7 @@
 From Hub Require Import Base.Prelude Base.Arith Model.Types Model.Keeper Model.Handlers Model.Hooks Model.Step.
 From Hub Require Import Proofs.Tactics Proofs.Frames Proofs.Money Proofs.KeysInv Proofs.Quota Proofs.InvDefs Proofs.Link
   Proofs.Ledger3 Proofs.RangeDefs Proofs.Range Proofs.Total Proofs.TotalClosed Proofs.Witness.
-From Hub Require Import Gen.Wiring Proofs.WiringThm.
+From Hub Require Import Gen.Wiring Proofs.WiringThm Gen.ParamRules Proofs.ParamRulesThm.
 
 (* From every genesis of the configuration domain (valid parameter sets with session delay <=
    subscription delay, validated inflation schedule, module accounts set up as the app does), every
@@ -151,6 +151,14 @@ Theorem C03_executed_proposal_keeps_parameters_sane : forall cs s,
   par_ok (pars (fold_left apply_pchange cs s)).
 Proof. exact gov_par_ok. Qed.
 
+(* ... and that gate IS the source's validators: [param_rules] is regenerated on every run from the ParamSetPairs and
+   the validate* functions of x/*/types/params.go (Go type and ordered refuse / accept tests of every parameter);
+   [rule_valid] evaluates the regenerated rule of the parameter a change writes on the value it carries. *)
+Theorem C03_gate_is_the_source_validators : forall c, pchange_valid c = rule_valid c.
+Proof. exact pchange_valid_is_the_regenerated_rule. Qed.
+Theorem C03_every_parameter_has_a_source_rule : forall c, is_Some (lookup_rule (pchange_key c)).
+Proof. exact every_parameter_has_a_rule. Qed.
+
 (* non-vacuity of the gate: a staking share above 1, a zero delay and a negative deposit are each refused
    (the whole proposal, also its valid first change), a valid proposal is executed *)
 Example C03_gate_examples :
@@ -176,3 +184,4 @@ Print Assumptions C03_end_block_order_is_the_apps.
 Print Assumptions C03_begin_block_order_is_the_apps.
 Print Assumptions C03_governance_gate.
 Print Assumptions C03_executed_proposal_keeps_parameters_sane.
+Print Assumptions C03_gate_is_the_source_validators.
